@@ -42,7 +42,7 @@ func zzDSEWorld(n int) (b *BFT, ctl *zzCtl, ev *DoubleSignEvidence, inA, inB []b
 	return
 }
 
-//zz:harness unwind=60 maxpaths=40000 timebudget=600
+//zz:harness unwind=60 maxpaths=40000 timebudget=600 param.n@thorough=4
 //zz:reach DSE.accepted DSE.rejected
 func ZZ_C14_honest_validator_never_implicated() {
 	n := zzParam("n", 3)
